@@ -16,7 +16,7 @@ func FuzzPageToken(f *testing.F) {
 	type prepared struct {
 		name string
 		want []string
-		list func(int32, string) ([]string, string, int32, error)
+		list listFn
 	}
 	var prep []prepared
 	for _, p := range pagers {
@@ -28,7 +28,7 @@ func FuzzPageToken(f *testing.F) {
 			return
 		}
 		for _, p := range prep {
-			r := callPage(p.list, size, token)
+			r := callPage(p.list, size, token, nil)
 			if r.panic != nil {
 				t.Fatalf("%s page_size=%d token=%q: panic: %v", p.name, size, token, r.panic)
 			}
@@ -36,7 +36,7 @@ func FuzzPageToken(f *testing.F) {
 				t.Fatalf("%s: negative page size %d answered with a page", p.name, size)
 			}
 			if r.err == nil {
-				if _, _, err := follow(p.list, size, token, len(p.want), false); err != nil {
+				if _, _, err := follow(p.list, size, token, nil, len(p.want), false); err != nil {
 					t.Fatalf("%s page_size=%d token=%q: %v", p.name, size, token, err)
 				}
 			}
